@@ -1,7 +1,7 @@
 SPECIFICATION MCSpec
 CONSTANTS
   Cap = 2
-  Family = "tiny"
+  Family = "quick"
 INVARIANT InvBudget
 INVARIANT InvOneOversized
 INVARIANT InvCbMutex
